@@ -726,6 +726,15 @@ class Interp:
                 except _Continue:
                     continue
         tag = f"{frame.info.qualname}.loop{frame.info.loops[id(s)]}"
+        if self.depth > 1:
+            # a loop of an inlined callee whose condition is false on entry does not run: no cut, no invariant needed
+            t0 = self.truth(self.eval(s.test, frame))
+            dead = (t0 is False) or (not isinstance(t0, bool) and not self.path.feasible(t0))
+            if dead:
+                if not isinstance(t0, bool):
+                    self.path.assume(z3.Not(t0))
+                self.exec_block(s.orelse, frame)
+                return
         self.prove_clauses(lc.invariant, frame, f"{tag}.inv.init")
         self.havoc_loop_state(s, lc, frame)
         self.assume_clauses(lc.invariant, frame)
